@@ -553,14 +553,12 @@ response for the bytes a command handler wrote.  `parsed` = what the JSON parser
 the *complete* document's `status` member; a truncated document (only the first
 `httpParseLen` bytes of an output of `httpSmallLimit` bytes or more) does not parse. -/
 def httpStatus (out : Bytes) (parsed : Option Nat) : Nat :=
-  match out with
-  | 123 :: _ =>
-    if !hasStatusWord (out.take httpProbeLen) then 200
-    else if out.length < httpSmallLimit then
-      match parsed with
-      | some c => if c ∈ httpKnown then c else 200
-      | none => 200
-    else 200
-  | _ => 200
+  if out.head? != some 123 then 200
+  else if !hasStatusWord (out.take httpProbeLen) then 200
+  else if out.length < httpSmallLimit then
+    match parsed with
+    | some c => if c ∈ httpKnown then c else 200
+    | none => 200
+  else 200
 
 end Snel.Response
